@@ -87,3 +87,140 @@ Section Electric.
     f_equal. unfold Qcdiv. ring.
   Qed.
 End Electric.
+
+(** ** any DHW supply without biomass, without auxiliaries counted for DHW, without excluded heat pumps and without
+    cogenerated electricity used for DHW (direct electric, heat pumps, solar thermal, district networks, boilers, and
+    their combinations): the renewable part of what the nearby carriers supply plus the on-site electricity used for DHW *)
+Section NoBiomass.
+  Variable ep : EP.
+  Variables (v : list Qc).
+  Let D := qsum v.
+  Let m0 := dhw_used_by_cr ep.
+  Hypothesis Hneeds : nd_ACS (ep_needs ep) = Some v.
+  Hypothesis Hd : ~ qabs D < f32_epsilon.
+  Hypothesis Hm : m0 <> [].
+  Hypothesis Hel : match aget m0 ELECTRICIDAD with Some E => qfrac 1 100 <= E | None => True end.
+  Hypothesis Hea : match aget m0 EAMBIENTE with Some A => qfrac 1 100 <= A | None => True end.
+  Hypothesis Hb : aget m0 BIOMASA = None.
+  Hypothesis Hbd : aget m0 BIOMASADENSIFICADA = None.
+  Hypothesis Haux : qsum (map vals_sum (filter (fun e => is_aux e && has_service ACS e) (ep_data ep))) = 0.
+  Hypothesis Hlow : qsum (map vals_sum (filter (fun e => is_used e && has_carrier EAMBIENTE e && contains (e_cmt e) TAG_EXCLUYE_SCOP) (ep_data ep))) = 0.
+  Hypothesis Hcgn : t_used_src_srv_opt ep EL_COGEN ACS = 0.
+
+  Theorem dhw_no_biomass :
+    fraccion_renovable_acs_nrb ep
+    = (do nb <- q_nrb_non_biomass (ep_factors ep) m0; Ok ((snd nb + t_used_src_srv_opt ep EL_INSITU ACS) / D)).
+  Proof.
+    unfold fraccion_renovable_acs_nrb, needs_sum. rewrite Hneeds. fold D.
+    destruct (qltb_spec (qabs D) f32_epsilon) as [L|L]; [contradiction|].
+    cbv zeta. fold m0. rewrite Haux, Hlow, !amodify_sub0.
+    assert (M2 : match aget m0 ELECTRICIDAD with
+                 | Some v0 => if qltb (qabs v0) (qfrac 1 100) then aremove m0 ELECTRICIDAD else m0 | None => m0 end = m0).
+    { destruct (aget m0 ELECTRICIDAD) as [E|]; [|reflexivity]. destruct (qltb_spec (qabs E) (qfrac 1 100)) as [K|K]; [exfalso; revert K; qlra|reflexivity]. }
+    rewrite M2.
+    destruct m0 as [|p0 m'] eqn:EM; [contradiction|]. rewrite <- EM in *.
+    assert (M4 : match aget m0 EAMBIENTE with
+                 | Some v0 => if qltb (qabs v0) (qfrac 1 100) then aremove m0 EAMBIENTE else m0 | None => m0 end = m0).
+    { destruct (aget m0 EAMBIENTE) as [A|]; [|reflexivity]. destruct (qltb_spec (qabs A) (qfrac 1 100)) as [K|K]; [exfalso; revert K; qlra|reflexivity]. }
+    rewrite M4.
+    destruct (q_nrb_non_biomass (ep_factors ep) m0) as [nb|k] eqn:N; cbn [bind]; [|reflexivity].
+    rewrite (ahas_absent _ _ Hb), (ahas_absent _ _ Hbd). cbn [orb andb negb bind].
+    rewrite Hcgn. destruct (qltb_spec 0 0) as [Z|Z]; [exfalso; qlra|]. rewrite andb_false_r. cbn [andb bind].
+    f_equal. destruct (qltb f32_epsilon _); unfold Qcdiv; ring.
+  Qed.
+End NoBiomass.
+
+(** a heat pump (electricity and ambient heat, in either order): ambient heat used for DHW plus on-site electricity used for DHW *)
+Lemma q_nrb_heat_pump fs E A : look fs EAMBIENTE RED SUMINISTRO STEP_A = Some (mkRNC 1 0 0) ->
+  q_nrb_non_biomass fs [(ELECTRICIDAD, E); (EAMBIENTE, A)] = Ok (A, A)
+  /\ q_nrb_non_biomass fs [(EAMBIENTE, A); (ELECTRICIDAD, E)] = Ok (A, A).
+Proof.
+  intros Hf. cbn [q_nrb_non_biomass cr_is_nearby andb bind fst snd Carrier_beq negb].
+  unfold ren_fraction. rewrite Hf. cbn [bind ren nren fst snd].
+  assert (F : (1 : Qc) / (1 + 0) = 1) by (apply Qc_is_canon; reflexivity). rewrite F. split; f_equal; f_equal; ring.
+Qed.
+
+(** ** biomass (one kind) together with nearby carriers only: what the other nearby carriers do not supply of the
+    demand is attributed to the biomass *)
+Section BiomassNearby.
+  Variable ep : EP.
+  Variables (v : list Qc) (bio : Carrier).
+  Let D := qsum v.
+  Let m0 := dhw_used_by_cr ep.
+  Hypothesis Hneeds : nd_ACS (ep_needs ep) = Some v.
+  Hypothesis Hd : ~ qabs D < f32_epsilon.
+  Hypothesis Hm : m0 <> [].
+  Hypothesis Hel : aget m0 ELECTRICIDAD = None.
+  Hypothesis Hea : match aget m0 EAMBIENTE with Some A => qfrac 1 100 <= A | None => True end.
+  Hypothesis Hbio : bio = BIOMASA /\ ahas m0 BIOMASA = true /\ ahas m0 BIOMASADENSIFICADA = false
+                    \/ bio = BIOMASADENSIFICADA /\ ahas m0 BIOMASA = false /\ ahas m0 BIOMASADENSIFICADA = true.
+  Hypothesis Hnear : forallb (fun p => cr_is_nearby (fst p)) m0 = true.
+  Hypothesis Hlow : qsum (map vals_sum (filter (fun e => is_used e && has_carrier EAMBIENTE e && contains (e_cmt e) TAG_EXCLUYE_SCOP) (ep_data ep))) = 0.
+  Hypothesis Hpv : t_used_src_srv_opt ep EL_INSITU ACS = 0.
+
+  Theorem dhw_biomass_nearby :
+    fraccion_renovable_acs_nrb ep
+    = (do nb <- q_nrb_non_biomass (ep_factors ep) m0; do fr <- ren_fraction (ep_factors ep) bio;
+       Ok ((snd nb + (D - fst nb) * fr) / D)).
+  Proof.
+    unfold fraccion_renovable_acs_nrb, needs_sum. rewrite Hneeds. fold D.
+    destruct (qltb_spec (qabs D) f32_epsilon) as [L|L]; [contradiction|].
+    cbv zeta. fold m0. rewrite Hlow.
+    rewrite (amodify_absent m0 ELECTRICIDAD _ Hel), Hel, amodify_sub0.
+    destruct m0 as [|p0 m'] eqn:EM; [contradiction|]. rewrite <- EM in *.
+    assert (M4 : match aget m0 EAMBIENTE with
+                 | Some v0 => if qltb (qabs v0) (qfrac 1 100) then aremove m0 EAMBIENTE else m0 | None => m0 end = m0).
+    { destruct (aget m0 EAMBIENTE) as [A|]; [|reflexivity]. destruct (qltb_spec (qabs A) (qfrac 1 100)) as [K|K]; [exfalso; revert K; qlra|reflexivity]. }
+    rewrite M4, Hnear.
+    destruct (q_nrb_non_biomass (ep_factors ep) m0) as [nb|k] eqn:N; cbn [bind]; [|reflexivity].
+    rewrite Hpv, Hel.
+    destruct Hbio as [(-> & B1 & B2)|(-> & B1 & B2)]; rewrite B1, B2; cbn [orb andb negb];
+      (destruct (ren_fraction (ep_factors ep) _) as [fr|k]; cbn [bind]; [|reflexivity]);
+      (destruct (qltb_spec 0 0) as [Z|Z]; [exfalso; qlra|]); cbn [andb bind]; f_equal; unfold Qcdiv; ring.
+  Qed.
+End BiomassNearby.
+
+(** ** biomass (not densified) mixed with a carrier that is not nearby: the output energy declared by the biomass
+    systems is what counts; without declared output energy there is no value *)
+Section BiomassMixed.
+  Variable ep : EP.
+  Variables (v : list Qc).
+  Let D := qsum v.
+  Let m0 := dhw_used_by_cr ep.
+  Hypothesis Hneeds : nd_ACS (ep_needs ep) = Some v.
+  Hypothesis Hd : ~ qabs D < f32_epsilon.
+  Hypothesis Hm : m0 <> [].
+  Hypothesis Hel : aget m0 ELECTRICIDAD = None.
+  Hypothesis Hea : match aget m0 EAMBIENTE with Some A => qfrac 1 100 <= A | None => True end.
+  Hypothesis Hb : ahas m0 BIOMASA = true.
+  Hypothesis Hbd : ahas m0 BIOMASADENSIFICADA = false.
+  Hypothesis Hfar : forallb (fun p => cr_is_nearby (fst p)) m0 = false.
+  Hypothesis Hlow : qsum (map vals_sum (filter (fun e => is_used e && has_carrier EAMBIENTE e && contains (e_cmt e) TAG_EXCLUYE_SCOP) (ep_data ep))) = 0.
+  Hypothesis Hpv : t_used_src_srv_opt ep EL_INSITU ACS = 0.
+
+  Theorem dhw_biomass_mixed :
+    fraccion_renovable_acs_nrb ep
+    = (do nb <- q_nrb_non_biomass (ep_factors ep) m0; do fr <- ren_fraction (ep_factors ep) BIOMASA;
+       do o <- biomass_out (ep_data ep) BIOMASA; Ok ((snd nb + o * fr) / D)).
+  Proof.
+    unfold fraccion_renovable_acs_nrb, needs_sum. rewrite Hneeds. fold D.
+    destruct (qltb_spec (qabs D) f32_epsilon) as [L|L]; [contradiction|].
+    cbv zeta. fold m0. rewrite Hlow.
+    rewrite (amodify_absent m0 ELECTRICIDAD _ Hel), Hel, amodify_sub0.
+    destruct m0 as [|p0 m'] eqn:EM; [contradiction|]. rewrite <- EM in *.
+    assert (M4 : match aget m0 EAMBIENTE with
+                 | Some v0 => if qltb (qabs v0) (qfrac 1 100) then aremove m0 EAMBIENTE else m0 | None => m0 end = m0).
+    { destruct (aget m0 EAMBIENTE) as [A|]; [|reflexivity]. destruct (qltb_spec (qabs A) (qfrac 1 100)) as [K|K]; [exfalso; revert K; qlra|reflexivity]. }
+    rewrite M4, Hfar, Hb, Hbd.
+    destruct (q_nrb_non_biomass (ep_factors ep) m0) as [nb|k] eqn:N; cbn [bind orb andb negb]; [|reflexivity].
+    destruct (ren_fraction (ep_factors ep) BIOMASA) as [fr|k]; cbn [bind]; [|reflexivity].
+    destruct (biomass_out (ep_data ep) BIOMASA) as [o|k]; cbn [bind]; [|reflexivity].
+    rewrite Hpv, Hel. destruct (qltb_spec 0 0) as [Z|Z]; [exfalso; qlra|]. cbn [andb bind]. f_equal. unfold Qcdiv. ring.
+  Qed.
+
+  (** the documented non-computable case *)
+  Corollary dhw_biomass_mixed_without_output nb fr :
+    q_nrb_non_biomass (ep_factors ep) m0 = Ok nb -> ren_fraction (ep_factors ep) BIOMASA = Ok fr ->
+    biomass_out (ep_data ep) BIOMASA = Err WrongInput -> fraccion_renovable_acs_nrb ep = Err WrongInput.
+  Proof. intros N F O. rewrite dhw_biomass_mixed. fold m0. rewrite N, F, O. reflexivity. Qed.
+End BiomassMixed.
